@@ -676,7 +676,8 @@ def run_impostor_responder(notify, auth_kind):
         return w, delivered
     a3 = as_m(lambda: Message.parse(msg3.data, crypto=m_resp.peer_crypto))
     a_auth = [p for p in a3.encrypted_payloads if int(p.type) == F.AUTH][0]
-    auth = {'zeros': PayloadAUTH(2, b'\0' * len(a_auth.auth_data)), 'reflected': a_auth,
+    auth = {'zeros': PayloadAUTH(2, b'\0' * len(a_auth.auth_data)), 'reflected': a_auth, 'empty': PayloadAUTH(2, b''),
+            'one-octet': PayloadAUTH(2, b'\0'), 'twice-as-long': PayloadAUTH(2, bytes(a_auth.auth_data) * 2),
             'random': PayloadAUTH(2, bytes((i * 37 + 11) & 0xFF for i in range(len(a_auth.auth_data))))}[auth_kind]
     payloads = ([PayloadNOTIFY(0, notify)] if notify else []) + [PayloadIDr(3, b'bob@openikev2'), auth]
     m_resp.peer_msg_id = 1
@@ -740,6 +741,11 @@ def run_impostor_initiator(conf_name, guess):
     id_body = bytes([int(idp.id_type), 0, 0, 0]) + bytes(idp.id_data)
     octets = RK.signed_octets(bytes(msg1m), nr, prf_name, m_init.ike_sa_keyring.sk_pi, id_body)
     forged = PayloadAUTH(2, RK.psk_auth(prf_name, guess, octets)) if recorded is None else recorded
+    if guess.startswith(b'auth-data:'):
+        # no guess at the key at all: AUTH data of another length than the PRF output (none, one octet, the output of a wrong
+        # key cut short / extended)
+        wrong = RK.psk_auth(prf_name, b'not-the-key', octets)
+        forged = PayloadAUTH(2, {b'empty': b'', b'one-octet': b'\0', b'cut-short': wrong[:8], b'extended': wrong + b'\0' * 8}[guess[10:]])
     if guess == b'skip-auth':
         # no AUTH at all: a protected CREATE_CHILD_SA request (Message ID 1) in place of IKE_AUTH, and an INFORMATIONAL
         from message import PayloadNONCE, Message
@@ -1142,10 +1148,12 @@ def main():
     cases = plans_quick()
     cases += [('mitm', v) for v in ('own-auth-guessed-psk', 'relay-alices-id-and-auth', 'relay-alices-auth-only')]
     cases += [('mitm', 'impostor-responder:%d:%s' % (n, a)) for n in (0, 38, 14, 35) for a in ('zeros', 'reflected', 'random')]
+    cases += [('mitm', 'impostor-responder:0:%s' % a) for a in ('empty', 'one-octet', 'twice-as-long')]
     cases += [('mitm', 'impostor-responder:0:%s' % a) for a in ('other-exchange-37', 'other-exchange-36', 'other-exchange-34',
                                                                 'clear-informational-to-init')]
     cases += [('mitm', 'impostor-initiator|%s|%s' % (c, g.hex())) for c in ('psk', 'rsa', 'mm:b-has-pubkey-and-psk-a-sends-psk-wrong')
-              for g in (b'', b'testing2', b'alice@openikev2', b'testing-not', b'skip-auth')]
+              for g in (b'', b'testing2', b'alice@openikev2', b'testing-not', b'skip-auth', b'auth-data:empty', b'auth-data:one-octet',
+                        b'auth-data:cut-short', b'auth-data:extended')]
     cases += [('mitm', 'impostor-initiator|%s|%s' % (c, b'replay-recorded-auth'.hex())) for c in ('psk', 'rsa')]
     cases += [('mitm', 'foreign-initiator:%s' % v) for v in FOREIGN_INIT_VARIANTS]
     cases += [('mitm', 'tenants:%s:%s' % v) for v in TENANT_VARIANTS]
